@@ -127,6 +127,14 @@ Fixpoint wf (s : sweep) : bool :=
   | _ => true
   end.
 
+(* every resolver of a ListSweep assigns the same keys (documented requirement, not checked by Cirq) *)
+Fixpoint uniform (s : sweep) : bool :=
+  match s with
+  | Product l | Zip l | ZipLongest l | Concat l => forallb uniform l
+  | ListSweep rs => match rs with [] => true | r :: rest => forallb (fun x => keys_eqb (map fst x) (map fst r)) rest end
+  | _ => true
+  end.
+
 Local Open Scope Z_scope.
 
 (* ---- integer indexing ------------------------------------------------------------------ *)
